@@ -56,7 +56,9 @@ def check(mon, ev):
         C = [fr(c) for c in cs]
         terms = [abs(C[i]) * abs(X) ** i for i in range(len(C))]
         powers_ok = x == 0 or all(in_domain(abs(X) ** i) for i in range(1, n + 1))
-        if not (powers_ok and all(in_domain(t) for t in terms)):
+        # any scheme forms sub-expressions c_i * x^j with 0 <= j <= i (e.g. c6 + c7*x in Estrin/Horner): the coefficient
+        # itself and the full term bracket all of them
+        if not (powers_ok and all(in_domain(t) for t in terms) and all(in_domain(abs(c)) for c in C)):
             mon.count("out_of_domain")
             return
         S = sum(C[i] * X ** i for i in range(len(C)))
@@ -87,7 +89,7 @@ def check(mon, ev):
     C = [mpmath.mpf(c) for c in cs]
     terms = [abs(C[i]) * aL ** i for i in range(len(C))]
     lo, hi = mpmath.mpf(2) ** -960, mpmath.mpf(2) ** 1000
-    if any((t != 0 and not (lo <= t <= hi)) for t in terms) or (aL != 0 and any(not (lo <= aL ** i <= hi) for i in range(1, n + 1))):
+    if any((c != 0 and not (lo <= abs(c) <= hi)) for c in C) or any((t != 0 and not (lo <= t <= hi)) for t in terms) or (aL != 0 and any(not (lo <= aL ** i <= hi) for i in range(1, n + 1))):
         mon.count("out_of_domain")
         return
     S = sum(C[i] * L ** i for i in range(len(C)))
